@@ -4,6 +4,7 @@
 (* pool internal/smtpconn/pool (property C19).  Pure functions of events   *)
 (* visible at the pool's API and at the connection objects handed to it:   *)
 (*   GetCall(w, key, now) / GetReturn(w, c, fresh, now)                    *)
+(*   GetFail(w)                  Get returned an error: w holds nothing    *)
 (*   ReturnCall(w, c, now) / ReturnReturn(w)                               *)
 (*   ConnClose(c, byHolder)      Close() of a connection object            *)
 (*   Break(c)                    the peer dropped an idle connection       *)
@@ -53,6 +54,11 @@ ObsGetReturn(o, w, c, fresh, now, life) ==
                         !.closes = IF known THEN o.closes ELSE Put(o.closes, c, 0),
                         !.lastUse = Put(o.lastUse, c, now),
                         !.safeRet = @ \ {c}]
+
+\* Get returned an error (dead context / dial failure): nothing was handed out.  A pooled
+\* connection the failed Get consumed keeps its state "idle": unless it is closed it is a
+\* leak at shutdown.
+ObsGetFail(o, w) == [o EXCEPT !.getAt = Del(o.getAt, w)]
 
 ObsReturnCall(o, w, c) ==
   [o EXCEPT !.st = IF Has(o.st, c) /\ o.st[c] = "held" THEN Put(o.st, c, "idle") ELSE o.st,
